@@ -7,6 +7,9 @@
 -/
 import Cte.Model.Damage
 import Cte.Model.Schedules
+import Cte.Model.BdlData
+import Cte.Model.Pipeline
+import Cte.Props.C02
 
 namespace Cte.Props.C19
 open Cte.Damage
@@ -186,5 +189,123 @@ theorem periodLengths_go_sum (prev : Int) (ends : List Int) (cs : List Nat)
 
 example : Cte.periodLengths [31, 59, 365] = some [31, 28, 306] := by decide
 example : Cte.periodLengths [59, 31, 365] = none := by decide
+
+/-! ### the typed-element layer (`Data::new`) cannot crash
+
+`Res` has a `panic` constructor so that the implementation's three outcomes can be mapped onto the model's; after the
+repairs (FLOOR X/Y assertion, air-gap name byte slice) no function of the model produces it. -/
+
+open Cte.BdlData in
+theorem floorOf_no_panic (b : Cte.Bdl.Block) (p : String) : floorOf b ≠ .panic p := by
+  unfold floorOf
+  simp only
+  split
+  · intro h; cases h
+  · split <;> (intro h; cases h)
+
+open Cte.BdlData in
+theorem wallConsOf_no_panic (b : Cte.Bdl.Block) (p : String) : wallConsOf b ≠ .panic p := by
+  unfold wallConsOf
+  simp only
+  split
+  · intro h; cases h
+  · intro h; cases h
+  · split
+    · intro h; cases h
+    · split <;> (intro h; cases h)
+
+open Cte.BdlData in
+theorem foldRes_no_panic {σ α : Type} (f : σ → α → Res σ) (hf : ∀ s x p, f s x ≠ .panic p) :
+    ∀ (l : List α) (s : σ) (p : String), foldRes f s l ≠ .panic p := by
+  intro l
+  induction l with
+  | nil => intro s p h; cases h
+  | cons x t ih =>
+    intro s p
+    unfold foldRes
+    cases hfx : f s x with
+    | ok s' => exact ih s' p
+    | err e => intro h; cases h
+    | panic q => exact absurd hfx (hf s x q)
+
+open Cte.BdlData in
+theorem dbStep_no_panic (st : DbSt) (b : Cte.Bdl.Block) (p : String) : dbStep st b ≠ .panic p := by
+  unfold dbStep
+  split
+  · split <;> (intro h; cases h)
+  · split
+    · split <;> (intro h; cases h)
+    · split
+      · split <;> (intro h; cases h)
+      · split
+        · split <;> (intro h; cases h)
+        · split
+          · split
+            · intro h; cases h
+            · intro h; cases h
+            · rename_i q hq; exact absurd hq (wallConsOf_no_panic b q)
+          · split <;> (intro h; cases h)
+
+open Cte.BdlData in
+theorem envStep_no_panic (floors : List (Cte.Bdl.Str × BdlData.Floor)) (wc : List (Cte.Bdl.Str × BdlData.WallCons)) (st : EnvSt)
+    (b : Cte.Bdl.Block) (p : String) : envStep floors wc st b ≠ .panic p := by
+  unfold envStep
+  intro h
+  repeat' (first | (split at h) | (cases h))
+
+open Cte.BdlData in
+/-- **`Data::new` never crashes**: whatever the text, the typed-element layer accepts or rejects -/
+theorem dataNew_never_panics (text : Cte.Bdl.Str) (p : String) : dataNew text ≠ .panic p := by
+  unfold dataNew
+  split
+  · intro h; cases h
+  · rename_i blocks _
+    unfold dataOfBlocks
+    simp only
+    split
+    · intro h; cases h
+    · rename_i q hq; exact absurd hq (foldRes_no_panic dbStep dbStep_no_panic _ _ q)
+    · split
+      · intro h; cases h
+      · split
+        · intro h; cases h
+        · split
+          · intro h; cases h
+          · rename_i q hq
+            refine absurd hq (foldRes_no_panic _ ?_ _ _ q)
+            intro s x r
+            cases hfl : floorOf x with
+            | ok f => simp
+            | err e => simp
+            | panic q => exact absurd hfl (floorOf_no_panic x q)
+          · split
+            · intro h; cases h
+            · split
+              · intro h; cases h
+              · rename_i q hq; exact absurd hq (foldRes_no_panic _ (envStep_no_panic _ _) _ _ q)
+              · intro h; cases h
+
+/-- **the modelled path never crashes**: every BDL text — intact, damaged, or arbitrary characters — is either converted
+    or rejected by blocks → typed elements → conversion skeleton -/
+theorem pipeline_never_crashes (text : Cte.Bdl.Str) : Cte.Pipeline.verdict text ≠ .crashed := by
+  unfold Cte.Pipeline.verdict
+  split
+  · rename_i p hp; exact absurd hp (dataNew_never_panics text p)
+  · intro h; cases h
+  · split <;> (intro h; cases h)
+
+/-- … and whatever it converts is referentially closed (C02, end to end from the text) -/
+theorem pipeline_converted_closed (text : Cte.Bdl.Str) (m : Cte.Conv.Mdl) (h : Cte.Pipeline.convertText text = some m) :
+    Cte.Conv.closed m = true := by
+  unfold Cte.Pipeline.convertText at h
+  split at h
+  · rename_i d _
+    cases hc : Cte.Conv.convert (Cte.Pipeline.skelOf d) with
+    | error e => simp [hc, Except.toOption] at h
+    | ok m' =>
+      simp [hc, Except.toOption] at h
+      subst h
+      exact Cte.Props.C02.convert_closed _ _ hc
+  · cases h
 
 end Cte.Props.C19
